@@ -217,7 +217,11 @@ func (f *MemFile) Read(b []byte) (n int, err error) {
 	}
 
 	nd.mu.RLock()
-	n = copy(b, nd.data[f.at:])
+
+	if f.at < int64(len(nd.data)) {
+		n = copy(b, nd.data[f.at:])
+	}
+
 	nd.mu.RUnlock()
 
 	f.at += int64(n)
@@ -651,6 +655,12 @@ func (f *MemFile) Write(b []byte) (n int, err error) {
 	}
 
 	nd.mu.Lock()
+
+	gap := f.at - int64(len(nd.data))
+	if gap > 0 {
+		// The offset is beyond the end of the file : the gap is filled with zeros.
+		nd.data = append(nd.data, make([]byte, gap)...)
+	}
 
 	n = copy(nd.data[f.at:], b)
 	if n < len(b) {
